@@ -59,8 +59,27 @@ def P_C10 (caseSx obs : Sx) : Option String :=
       | _ => some "formatted-text-does-not-parse"
     | _, _ => some "unparsable-observation"
   | .list (.atom "fmt1" :: _), .list [.atom "fmt1", _, _, _] => none
-  | .list (.atom "cli" :: _), .list [.atom "cli", code, _] =>
-    if sxEq code (.atom "0") then none else some "cli-failed"
+  | .list (.atom "cli" :: _), .list [.atom "cli", code, out, lib] =>
+    -- the command-line tool prints exactly the library's rendering of the file, and a newline
+    if !sxEq code (.atom "0") then some "cli-failed"
+    else match IdlObs.str out, IdlObs.str lib with
+      | some out, some lib =>
+        if out == lib ++ ['\n'] then none
+        else if out.contains (Char.ofNat 0xFFFD) && !lib.contains (Char.ofNat 0xFFFD) then
+          some "cli-output-differs-from-library-rendering:replacement-character"
+        else some "cli-output-differs-from-library-rendering"
+      | _, _ => some "cli-accepted-a-file-the-library-rejects"
+  | .list (.atom "conc" :: _), .list (.atom "conc" :: rs) =>
+    -- every rendering made while other threads were rendering equals the sequential one
+    let bad := rs.filter fun r => match r with
+      | .list [_, _, a, b, c, _] => !(sxEq a (.atom "0") && sxEq b (.atom "0") && sxEq c (.atom "0"))
+      | _ => true
+    let plainBad := rs.any fun r => match r with
+      | .list [_, _, a, _, c, _] => !(sxEq a (.atom "0") && sxEq c (.atom "0"))
+      | _ => true
+    if bad.isEmpty then none
+    else if plainBad then some "concurrent-plain-rendering-differs-from-sequential"
+    else some "concurrent-colored-rendering-differs-from-sequential"
   | _, _ => some "unparsable-observation"
 
 end VV
